@@ -1199,3 +1199,16 @@ func usesInternals(e CExpr, con *Contract) bool {
 	walk(e)
 	return found
 }
+
+// isForwarder: fn is a contract-less one-call wrapper (see forwarder); it is verified at its call sites.
+func (e *Engine) isForwarder(fn *ssa.Function) bool {
+	if len(e.contracts[fn.String()]) > 0 {
+		return false
+	}
+	dummy := make([]ssa.Value, len(fn.Params))
+	for i, p := range fn.Params {
+		dummy[i] = p
+	}
+	_, _, ok := e.forwarder(fn, dummy)
+	return ok
+}
